@@ -150,7 +150,7 @@ def ref_pack(t: Any, x: str, no_copy: Tuple = (), cbn: bool = True) -> List[str]
         items = [_one(ref_pack(anns.get(f, typing.Any), f"{x}[{i}]", no_copy)) for i, f in enumerate(o._fields)]
         return ["[" + ", ".join(items) + "]"]
     if typing.is_typeddict(o):
-        return ["<typeddict helper>"]
+        return [f"<typeddict helper>({x})"]
     if _sub(o, tuple):
         if not a or (len(a) == 2 and a[1] is Ellipsis):
             e = _one(ref_pack(a[0] if a else typing.Any, "value", no_copy))
@@ -223,12 +223,12 @@ def ref_unpack(t: Any, x: str, cbn: bool = True) -> List[str]:
         return [f"{tok(re.compile)}({x})"]
     if _is_nt(o):
         if getattr(o, "_field_defaults", {}):
-            return ["<namedtuple helper>"]
+            return [f"<namedtuple helper>({x})"]
         anns = getattr(o, "__annotations__", {})
         items = [_one(ref_unpack(anns.get(f, typing.Any), f"{x}[{i}]")) for i, f in enumerate(o._fields)]
         return [f"{tok(o)}(" + ", ".join(items) + ")"]
     if typing.is_typeddict(o):
-        return ["<typeddict helper>"]
+        return [f"<typeddict helper>({x})"]
     if _sub(o, tuple):
         if not a or (len(a) == 2 and a[1] is Ellipsis):
             e = _one(ref_unpack(a[0] if a else typing.Any, "value"))
